@@ -116,6 +116,11 @@ def step (σ : St) (op obs : List String) : St × List Msg :=
     let d := expectEq "probe.notified" model who
     let want := s!"{σ.implInForce.getD "-"}.{recvOf sev}"
     let pf := if who = want then [] else
+      if name.startsWith "slow-" then
+        -- a delivery that takes 3 s fits into every flush (its budget is max(group_interval, 10 s) + cluster wait)
+        [Msg.propfail "repeat_on_time" "slow-receiver-cut-off"
+          s!"alert {name}: the receiver answers after 3 s; no delivery was completed (observed: {who}, expected {want}): the flush gives its deliveries less than the 10 s minimum"]
+      else
       inForceFail σ s!"a new alert {name} (sev={sev}) must be notified by {want}, observed" who
     (σ, d ++ pf ++ [.tag (if σ.lastFailed then "probe:after-rejected" else "probe:after-accepted"), .tag s!"probe:{recvOf sev}"])
   | ["status"], [id] =>
